@@ -473,6 +473,7 @@ func (r *runner) report(results []*caseResult, wall time.Duration) int {
 		printedViol = map[string]int{}
 	)
 	emit := func(cr *caseResult, v Violation) {
+		v.Key = NormKey(v.Key)
 		if f := kf.Match(v.Key); f != nil {
 			nKnown[f.Key]++
 			return
@@ -642,6 +643,16 @@ func (r *runner) report(results []*caseResult, wall time.Duration) int {
 	fmt.Printf("%s property=%s tier=%s seed=%d cases=%d evaluations=%d distinct_nontrivial=%d violations=%d known=%d inconclusive=%d wall=%.1fs cpu=%.1fs\n",
 		verdict, ch.ID, opt.Tier, opt.Seed, len(results), evals, distinct, nViol, len(nKnown), counters["inconclusive"], wall.Seconds(), float64(cpuTotal)/1000)
 	fmt.Printf("observed:%s\n", cb.String())
+	if len(printedViol) > 0 {
+		vk := make([]string, 0, len(printedViol))
+		for k := range printedViol {
+			vk = append(vk, k)
+		}
+		sort.Strings(vk)
+		for _, k := range vk {
+			fmt.Printf("  violation class %s x%d\n", k, printedViol[k])
+		}
+	}
 	for i, ic := range inconcl {
 		if i >= 5 {
 			fmt.Printf("  ... %d more inconclusive\n", len(inconcl)-5)
